@@ -351,6 +351,50 @@ def run(prog, R):
                     silent.append(([(show(t)[-40:], c) for t, c in conds_of(p)][-2:], errors_on(p)))
         R.ob("C18.4-include-below-global", "nested Include => IncludeNotInGlobalScopeError, no statement", ninc >= 1 and not silent, st.at,
              f"{ninc} returning path(s) of the Include arm, each reports the diagnostic" if not silent else f"a returning path of the Include arm reports nothing: {silent[:2]} (an include in a def/gate body would be dropped silently)")
+    R.premises(prog, "C18.5-stdgates-premise", ["C09:C09.4-stdgates"], "`include \"stdgates.inc\"` acts as if the library's text were there only if Context::standard_library_gates binds every gate of the library with its arity, whatever is already bound (a name that is taken is reported, the others are still bound)")
+    # ---- C18.1 the search list given by the caller is the one every nested include is resolved with
+    # Every function of the source-file crate that receives the list (a parameter of type Option<&[P]>) and calls another
+    # function of the crate that receives one passes its own parameter on, unchanged, on every path.  A list that is
+    # rebuilt on the way down (a directory prepended, the order changed, the list dropped) makes a file included from an
+    # included file resolve differently from the same include written in the main file.
+    def _list_param(b_):
+        return [i for i, l in enumerate(b_.j["locals"][1:1 + b_.j.get("nargs", 0)]) if (l.get("ty") or "").replace(" ", "").startswith("std::option::Option<&[") and l.get("name")]
+    takers = {k: _list_param(prog.body(k)) for k in prog.bodies if k.startswith("oq3_source_file::") and "{closure" not in k}
+    takers = {k: v for k, v in takers.items() if v}
+    handed, badh = 0, []
+    # closures of a taker that capture the list: upvar field -> the parent's parameter
+    units = [(k, prog.body(k), {prog.body(k).j["locals"][1 + idx[0]]["name"]}) for k, idx in sorted(takers.items())]
+    for k, idx in sorted(takers.items()):
+        b_ = prog.body(k)
+        pl_ = 1 + idx[0]
+        for bi, si, st_ in b_.stmts_with_pos():
+            if st_["k"] == "assign" and st_["rv"]["k"] == "agg" and st_["rv"].get("closure") in prog.bodies:
+                names = set()
+                for fi, f_ in enumerate(st_["rv"].get("fields", [])):
+                    l_ = (f_.get("pl") or {}).get("l")
+                    if l_ == pl_ and not f_["pl"]["p"]:
+                        names.add(f"arg1.{fi}")
+                    defs = [s2["rv"] for _, _, s2 in b_.stmts_with_pos() if s2["k"] == "assign" and s2["lhs"]["l"] == l_ and not s2["lhs"]["p"]]
+                    if len(defs) == 1 and defs[0]["k"] in ("ref", "use") and (defs[0].get("pl") or defs[0].get("op", {}).get("pl") or {}).get("l") == pl_:
+                        names.add(f"arg1.{fi}")
+                if names:
+                    units.append((st_["rv"]["closure"], prog.body(st_["rv"]["closure"]), names))
+    for k, b_, own in units:
+        se_ = SymExec(prog, b_, max_visits=1)
+        for p_ in se_.paths():
+            for c in p_.calls:
+                if c[0] in takers:
+                    ci = takers[c[0]][0]
+                    if ci < len(c[1]):
+                        handed += 1
+                        a_ = show(deep_strip(c[1][ci]))
+                        if a_ not in own:
+                            badh.append((k.split("::", 2)[-1], c[0].split("::")[-1], a_[:120]))
+    badh = sorted(set(badh))
+    R.ob("C18.1-list-handed-down", "every function that receives the search list passes it on unchanged to resolve_file_path and to the parsing of nested includes", handed >= 6 and not badh and len(takers) >= 4,
+         prog.body(SF + "parse_included_files").at if prog.body(SF + "parse_included_files") else "",
+         f"{len(takers)} functions take the list; {handed} hand-over sites on all paths, each passes the function's own parameter" if not badh else
+         f"(caller, callee, argument) {badh[:3]}: the list a nested include is resolved with is not the caller's list, so the include is not resolved to the first directory of the given list that contains the file")
     # ---- C18.6 recursion shape and inventory
     cg = prog.callgraph()
     inc_fns = [k for k in prog.bodies if k.startswith(SF + "parse_included_files") or k == SF + "parse_source_and_includes"]
